@@ -58,6 +58,8 @@ def build(level='quick'):
     add('set_ss_st', [lambda: {'s', 't'}, lambda: {'t', 's'}], True)
     add('set_ss_st_uni', [lambda: {'s', 't', u'é中', 'abc', 'zz'}, lambda: {'zz', 'abc', u'é中', 't', 's'}], True)
     add('set_ints', [lambda: {1, 2, 3, 100}, lambda: {100, 3, 2, 1}])
+    # two ints that collide in the hash table of a small set (1 = 9 mod 8): iteration order = insertion order
+    add('set_i1_i9', [lambda: {1, 9}, lambda: {9, 1}])
     # depth 2
     add('list_list_i1', [lambda: [[1]]])
     add('list_tuple_i1', [lambda: [(1,)]])
@@ -78,6 +80,11 @@ def build(level='quick'):
                       lambda: {'a': {'b': {'c': {'d': {'e': {'f': {'j': 2, 'k': 1}}}}}}}])
     add('deep_obj', [lambda: [[[[[[Plain(a=1)]]]]]], lambda: [[[[[[Plain(a=1)]]]]]]])
     add('deep_obj_other', [lambda: [[[[[[Other(a=1)]]]]]]])
+    # a token whose presentations iterate differently *in this process* although they are equal: sets whose element
+    # hashes collide in the table (iteration order then depends on the construction history, not on the hash seed)
+    for tok, d in u.items():
+        d['insertion_sensitive'] = (not d['hash_sensitive'] and len(d['pres']) > 1
+                                    and len(set(repr(b()) for b in d['pres'])) > 1)
     return u
 
 
